@@ -24,7 +24,8 @@ func TestSim(t *testing.T) {
 		},
 		Main: Run,
 		Warmup: func(string) {
-			for _, n := range []string{"t", "t2", "one", "p", "c"} {
+			for _, n := range []string{"t", "t2", "one", "p", "c", "tree", "hd", "md", "lo", "pp", "c1", "c2",
+				"x0", "x1", "x2", "x3", "x4", "x5", "x6", "x7"} {
 				core.Global.FindName(nil, "Trigger_"+n)
 			}
 		},
